@@ -60,9 +60,12 @@ def call(api, aps, rows, unit, req2, req_unit):
         return ('ok', [[float(x) for x in r] for r in o.flux.to(u.mJy).value],
                 meta, [[float(x) for x in o.error.to(u.mJy).value[(r - 1) % n]] for r in range(n)])
     s = make_sed(aps, rows, unit)
-    if api == 'sed':
+    if api in ('sed', 'sedq'):
         try:
-            o = s.interpolate(req.copy())            # bare numbers = AU, as plot() passes them
+            if api == 'sed':
+                o = s.interpolate(req.copy())            # bare numbers = AU, as plot() passes them
+            else:
+                o = s.interpolate((req * u.au).to(getattr(u, req_unit)))   # quantities are accepted too
         except Exception as e:
             return ('refused', repr(e), None)
         o = np.asarray(getattr(o, 'value', o), dtype=float)
@@ -89,7 +92,7 @@ def replay_chunk(behs, seed):
         good = [q for q in allq if exp[q] != []]
         small = [q for q in allq if exp[q] == []]
         nrows = len(rows)
-        for api in ('conv', 'sed', 'var'):
+        for api in ('conv', 'sed', 'sedq', 'var'):
             unit = rng.choice(UNITS)
             req_unit = rng.choice(UNITS)
             calls = []
@@ -107,11 +110,11 @@ def replay_chunk(behs, seed):
                 res = call(api, aps, rows, unit, req2, req_unit)
                 col.replayed += 1
                 want_refuse = any(exp[q] == [] for q in req2)
-                desc = {'api': api, 'aps_AU': aps, 'table_unit': unit, 'request_unit': req_unit if api == 'conv' else 'bare AU',
+                desc = {'api': api, 'aps_AU': aps, 'table_unit': unit, 'request_unit': req_unit if api in ('conv', 'sedq') else 'bare AU',
                         'rows': rows, 'requests_AU': [q / 2.0 for q in req2]}
                 # BOUNDARY: a request exactly on the first/last tabulated radius that goes through a unit
                 # conversion may land 1 ulp outside the table; refusal is admitted there (and only there)
-                edgeconv = ((unit != req_unit) if api == 'conv' else (unit != 'au')) and len(aps) > 1 and \
+                edgeconv = ((unit != req_unit) if api == 'conv' else (unit != 'au' or (api == 'sedq' and req_unit != 'au'))) and len(aps) > 1 and \
                     any(q in (2 * aps[0], 2 * aps[-1]) for q in req2)
                 if res[0] == 'refused' and not want_refuse and edgeconv:
                     col.extra['boundary_refusals_admitted'] = col.extra.get('boundary_refusals_admitted', 0) + 1
@@ -164,7 +167,7 @@ def record(seeds):
         rows = [[rng.randint(0, 40) for _ in range(nk)] for _ in range(nrows)]
         tr = [{'ev': 'Table', 'aps': aps, 'rows': rows}]
         for _ in range(rng.randint(1, 5)):
-            api = rng.choice(['conv', 'sed', 'var'])
+            api = rng.choice(['conv', 'sed', 'sedq', 'var'])
             nreq = nrows if api == 'var' else rng.randint(1, 5)
             req2 = []
             for _k in range(nreq):
@@ -172,7 +175,7 @@ def record(seeds):
                 req2.append(2 * rng.choice(aps) if r < 0.3 else (rng.randint(1, 2 * aps[0]) if r < 0.4 else rng.randint(2 * aps[0], 2 * aps[-1] + 20)))
             unit, req_unit = rng.choice(UNITS), rng.choice(UNITS)
             res = call(api, aps, rows, unit, req2, req_unit)
-            edgeconv = ((unit != req_unit) if api == 'conv' else (unit != 'au')) and len(aps) > 1 and \
+            edgeconv = ((unit != req_unit) if api == 'conv' else (unit != 'au' or (api == 'sedq' and req_unit != 'au'))) and len(aps) > 1 and \
                 any(q in (2 * aps[0], 2 * aps[-1]) for q in req2)
             ev = {'ev': 'Call', 'api': api, 'req2': req2, 'refused': int(res[0] == 'refused'), 'out': [], 'rowof': list(range(1, nrows + 1)),
                   'meta': 1, 'edgeconv': int(edgeconv)}
